@@ -131,3 +131,20 @@ package detect
 //@ func SingleDetect
 //@   requires source != nil && !readfailed(source) && numByte >= 0
 //@   modifies nothing
+
+// ---------------------------------------------------------------------------------------------
+// detect_fast.go — worker pool. Schedules are not explored: the obligations below are the per-iteration
+// protocol contracts that meta-theorem M1 (DESIGN §2.6) needs.
+
+//@ func worker
+//@   requires source != nil && n >= 0 && wait != nil
+//@   calls round in {Round15, Round12}
+//@   requires (round == fn(Round15) && len(distributions) == 15) || (round == fn(Round12) && len(distributions) == 12)
+//@   requires len(counter) == len(distributions)
+//@   requires forall a int :: {distributions[a]} 0 <= a && a < len(distributions) ==> allocated(distributions[a]) && ref(distributions[a]) != ref(distributions)
+//@   modifies distributions[*], counter
+//@   loop 1
+//@     assumes 0 <= i && (forall a int :: {distributions[a]} 0 <= a && a < len(distributions) ==> i < len(distributions[a]))
+//@     invariant len(buf) == n && off(buf) == 0 && fresh(buf)
+//@   loop 2
+//@     invariant len(buf) == n && off(buf) == 0 && fresh(buf)
